@@ -133,7 +133,7 @@ def exact_circle(r, n, cx, cy, origin):
     return out, marg
 
 
-VIEWS = ["transposed", "every-other", "reversed", "fortran", "offset-window"]
+VIEWS = ["transposed", "every-other", "reversed", "fortran", "offset-window", "readonly"]
 
 
 def as_view(rng, m):
@@ -150,6 +150,9 @@ def as_view(rng, m):
         v = numpy.ascontiguousarray(m[::-1, ::-1])[::-1, ::-1]
     elif how == "fortran":
         v = numpy.asfortranarray(m)
+    elif how == "readonly":                                    # e.g. a memory-mapped / shared pupil mask
+        v = numpy.array(m, copy=True)
+        v.setflags(write=False)
     else:
         big = numpy.full((n0 + 3, n1 + 2), 7, dtype=m.dtype)
         big[2:2 + n0, 1:1 + n1] = m
@@ -909,6 +912,362 @@ def exhaustive_small(chk, quick):
                 chk.case(("oracle", "exhaustive", n, subaps))
 
 
+# ----------------------------------------------------------------------------------------------- round 5: generator audit
+def _exact_circle_int(r, n, cx, cy, origin, bits=3):
+    """exact_circle for data with at most `bits` fractional bits, vectorised in int64: everything is scaled by q = 2^bits, so
+    (pixel - centre)·q and r·q are integers (|·| < 2^20 for the sizes used: squares fit int64 with room to spare)"""
+    q = 1 << bits
+    R, CX, CY = int(round(r * q)), int(round(cx * q)), int(round(cy * q))
+    assert R == r * q and CX == cx * q and CY == cy * q
+    if origin == "middle":
+        assert (n * q) % 2 == 0
+        CX, CY = CX + n * q // 2, CY + n * q // 2
+    k = numpy.arange(n, dtype=numpy.int64) * q + q // 2
+    X, Y = numpy.meshgrid(k - CX, k - CY)
+    return (X * X + Y * Y <= R * R).astype(float)
+
+
+def circle_arg_variants(rng, r, n, cx, cy, origin):
+    """the same mathematical arguments in the other spellings a caller uses: [(name, args, kwargs, centre object or None)].
+    Every value is a dyadic rational with at most 3 fractional bits and magnitude < 2^7: exactly representable (and its square
+    exactly computed) in binary32 as well, so a NumPy float32 scalar is the same number"""
+    f32ok = all(float(numpy.float32(v)) == v for v in (r, cx, cy))
+    out = []
+    lst = [cx, cy]
+    out.append(("centre:list", (r, n, lst, origin), {}, lst))
+    arr = numpy.array([cx, cy])
+    out.append(("centre:ndarray", (r, n, arr, origin), {}, arr))
+    if cx == int(cx) and cy == int(cy):
+        ai = numpy.array([int(cx), int(cy)])
+        out.append(("centre:int-ndarray", (r, n, ai, origin), {}, ai))
+        out.append(("centre:int-tuple", (r, n, (int(cx), int(cy)), origin), {}, None))
+    out.append(("centre:numpy-float64-tuple", (r, n, (numpy.float64(cx), numpy.float64(cy)), origin), {}, None))
+    if f32ok:
+        out.append(("centre:numpy-float32-tuple", (r, n, (numpy.float32(cx), numpy.float32(cy)), origin), {}, None))
+        out.append(("radius:numpy-float32", (numpy.float32(r), n, (cx, cy), origin), {}, None))
+    out.append(("radius:numpy-float64", (numpy.float64(r), n, (cx, cy), origin), {}, None))
+    out.append(("radius:0-d-array", (numpy.array(r), n, (cx, cy), origin), {}, None))
+    if r == int(r):
+        out.append(("radius:int", (int(r), n, (cx, cy), origin), {}, None))
+        out.append(("radius:numpy-int64", (numpy.int64(int(r)), n, (cx, cy), origin), {}, None))
+    out.append(("size:numpy-int64", (r, numpy.int64(n), (cx, cy), origin), {}, None))
+    out.append(("size:numpy-int32", (r, numpy.int32(n), (cx, cy), origin), {}, None))
+    out.append(("keywords", (), dict(radius=r, size=n, circle_centre=(cx, cy), origin=origin), None))
+    out.append(("keywords:reordered", (), dict(origin=origin, circle_centre=(cx, cy), size=n, radius=r), None))
+    if origin == "middle":
+        out.append(("origin:default", (r, n, (cx, cy)), {}, None))
+        if cx == 0 and cy == 0:
+            out.append(("centre:default", (r, n), {}, None))
+            out.append(("centre:default+origin-keyword", (r, n), dict(origin="middle"), None))
+    rng.shuffle(out)
+    return out
+
+
+def oracle_round5(chk, quick):
+    """input classes and call histories no earlier section produces (generator audit): argument spellings of circle, its result
+    being a fresh array, sizes beyond 255 / 2^16 pixels, argument forms of computeFillFactor, sub-aperture maps with more than
+    2^8 / 2^16 valid positions, slope data of further dtypes and layouts, the same map shape filled twice"""
+    import aotools
+    from aotools.functions import pupil
+    from aotools.wfs import wfslib
+    rng = chk.rng
+    circle = pupil.circle
+
+    def bad(key, what, **replay):
+        chk.fail(key, what, replay)
+
+    # ---- circle: every spelling of the same arguments gives the exact indicator; arguments are left alone; every call returns
+    # a fresh array (a caller that edits a mask in place — mask[obstruction] = 0 — must not change what the next caller gets)
+    for it in range(40 if quick else 400):
+        with Guard(chk, 'circle:argtype') as g:
+            n = rng.randint(1, 14 if quick else 30)
+            origin = rng.choice(["middle", "corner"])
+            half = n / 2.0
+            base = 0.0 if origin == "middle" else half
+            k = it % 4
+            if k == 0:                                   # the default centre
+                r, cx, cy = dy(rng, 0, n, rng.choice([0, 2])), base, base
+            elif k == 1:                                 # integers
+                r, cx, cy = float(rng.randint(0, n)), float(int(base) + rng.randint(-3, 3)), float(int(base) + rng.randint(-3, 3))
+            else:
+                r, cx, cy = dy(rng, 0, n, 3), base + dy(rng, -half - 1, half + 1, 3), base + dy(rng, -half - 1, half + 1, 3)
+            want, _ = exact_circle(r, n, cx, cy, origin)
+            fn = circle if it % 2 else aotools.circle
+            variants = circle_arg_variants(rng, r, n, cx, cy, origin)
+            for name, args, kw, cobj in variants[:6 if quick else 30]:
+                chk.oracle_cases += 1
+                chk.count("oracle:circle:argtype:" + name)
+                chk.case(("oracle", "circle-argtype", name, origin, repr((r, n, cx, cy))))
+                rep = dict(radius=r, size=n, circle_centre=[cx, cy], origin=origin, spelling=name)
+                g.clear()
+                g.update(rep)
+                keep = None if cobj is None else (list(cobj) if isinstance(cobj, list) else cobj.copy())
+                got = fn(*args, **kw)
+                if getattr(got, "shape", None) != (n, n) or not numpy.array_equal(got, want):
+                    bad("circle:argtype:" + name, "circle(%r, %d, (%r, %r), %r) written as [%s] is not the indicator of the pixel centres "
+                        "within the radius (%s)" % (r, n, cx, cy, origin, name,
+                                                    "shape %s" % (getattr(got, "shape", None),) if getattr(got, "shape", None) != (n, n)
+                                                    else "%d pixels differ" % int((got != want).sum())), **rep)
+                if keep is not None and not numpy.array_equal(numpy.asarray(cobj), numpy.asarray(keep)):
+                    bad("circle:argtype:centre-modified", "circle(%r, %d, %s, %r) changes its circle_centre argument %r -> %r"
+                        % (r, n, name, origin, list(keep), list(cobj)), **rep)
+            # history: the caller edits the mask it got, then the same arguments are asked for again
+            chk.oracle_cases += 1
+            chk.count("oracle:circle:history:result-reused")
+            rep = dict(radius=r, size=n, circle_centre=[cx, cy], origin=origin, history="circle(args); result[...] edited in place; circle(args)")
+            g.clear()
+            g.update(rep)
+            first = fn(r, n, (cx, cy), origin)
+            if first.shape == (n, n):
+                first[...] = 7.0
+                first[::2] -= 9.0
+                again = fn(r, n, (cx, cy), origin)
+                other = fn(r + 0.5, n, (cx, cy), origin)       # and a different request of the same size in between
+                third = fn(r, n, (cx, cy), origin)
+                if not (numpy.array_equal(again, want) and numpy.array_equal(third, want)):
+                    bad("circle:history:result-reused", "circle(%r, %d, (%r, %r), %r) called again after the caller edited the first result "
+                        "in place returns %d wrong pixels (the first call was right): results must be fresh arrays"
+                        % (r, n, cx, cy, origin, int((again != want).sum()) if again.shape == want.shape else -1), **rep)
+                if numpy.shares_memory(again, third) or numpy.shares_memory(other, third):
+                    bad("circle:history:result-reused", "two calls of circle(%r, %d, …) return arrays sharing memory" % (r, n), **rep)
+    # ---- circle beyond 255 pixels and beyond 2^16 / 2^18 / 2^20 elements (real pupils: 256 … 1024 pixels), exact
+    big_sizes = [255, 256, 257, 300, 512, 1000] if quick else [255, 256, 257, 300, 511, 512, 513, 640, 1000, 1024, 1025, 2048]
+    for n in big_sizes:
+        for rep_ in range(2 if quick else 4):
+            with Guard(chk, 'circle:large-n') as g:
+                origin = ["middle", "corner"][rep_ % 2]
+                half = n / 2.0
+                base = 0.0 if origin == "middle" else half
+                kind = rng.choice(["pupil", "offset", "tie"])
+                if kind == "pupil":                           # the telescope pupil: radius n/2, centred
+                    r, cx, cy = half, base, base
+                elif kind == "offset":
+                    r, cx, cy = dy(rng, n / 8, n, 3), base + dy(rng, -half, half, 3), base + dy(rng, -half, half, 3)
+                else:                                         # a pixel centre exactly on the boundary, far from the centre
+                    a, b, c = rng.choice(TRIPLES)
+                    s = float(rng.choice([8, 16, 32]) * (n // 256 + 1))
+                    i, j = rng.randrange(n), rng.randrange(n)
+                    ccx, ccy = j + 0.5 - rng.choice([-1, 1]) * a * s, i + 0.5 - rng.choice([-1, 1]) * b * s
+                    r = c * s
+                    cx, cy = (ccx - half, ccy - half) if origin == "middle" else (ccx, ccy)
+                rep = dict(radius=r, size=n, circle_centre=[cx, cy], origin=origin)
+                g.update(rep)
+                chk.oracle_cases += 1
+                chk.count("oracle:circle:large-n:%s" % kind)
+                chk.case(("oracle", "circle-large", n, origin, kind, repr((r, cx, cy))))
+                got = circle(r, n, (cx, cy), origin)
+                want = _exact_circle_int(r, n, cx, cy, origin)
+                if getattr(got, "shape", None) != (n, n) or got.dtype != numpy.float64 or not numpy.array_equal(got, want):
+                    w = numpy.argwhere(got != want)[0].tolist() if getattr(got, "shape", None) == (n, n) else None
+                    bad("circle:indicator:large-n", "circle(%r, %d, (%r, %r), %r): %s" % (
+                        r, n, cx, cy, origin, "shape %s dtype %s" % (getattr(got, "shape", None), getattr(got, "dtype", None)) if w is None else
+                        "%d of %d pixels are not the indicator of |pixel centre - centre| <= r, first at [%d, %d]"
+                        % (int((got != want).sum()), n * n, w[0], w[1])), pixel=w, **rep)
+    # ---- computeFillFactor: the coordinates in the forms a caller holds them (list of rows, integer array, a permuted subset,
+    # none at all), the spacing as Python / NumPy integer or float: one fill per given coordinate, in the given order
+    for it in range(40 if quick else 400):
+        with Guard(chk, 'fill:argform') as g:
+            subaps = rng.choice([1, 2, 3, 4, 5])
+            n = subaps * rng.randint(1, 6)
+            kind, mask = gen_mask(rng, n, n)
+            if not exact_sums(mask):
+                continue
+            cells = block_cells(subaps, n, n)
+            M = {xy: float(m) for xy, m in exact_means(mask, cells).items()}
+            sp = n // subaps
+            sel = [xy for xy in sorted(cells) if rng.random() < 0.7]
+            rng.shuffle(sel)
+            if it % 8 == 0:
+                sel = []
+            pos = [[float(x * sp), float(y * sp)] for x, y in sel]
+            form = rng.choice(["ndarray", "list-of-lists", "list-of-tuples", "int-ndarray", "int-lists", "fortran", "strided", "readonly"])
+            if form == "ndarray":
+                arg = numpy.array(pos).reshape(-1, 2)
+            elif form == "list-of-lists":
+                arg = [list(p) for p in pos]
+            elif form == "list-of-tuples":
+                arg = [tuple(p) for p in pos]
+            elif form == "int-ndarray":
+                arg = numpy.array(pos, dtype=int).reshape(-1, 2)
+            elif form == "int-lists":
+                arg = [[int(a), int(b)] for a, b in pos]
+            elif form == "fortran":
+                arg = numpy.asfortranarray(numpy.array(pos).reshape(-1, 2))
+            elif form == "strided":
+                bigp = numpy.full((len(pos), 6), -3.0)
+                bigp[:, 1::3] = numpy.array(pos).reshape(-1, 2)
+                arg = bigp[:, 1::3]
+            else:
+                arg = numpy.array(pos).reshape(-1, 2)
+                arg.setflags(write=False)
+            spk, spv = rng.choice([("int", sp), ("float", float(sp)), ("numpy-int64", numpy.int64(sp)), ("numpy-float64", numpy.float64(sp)),
+                                   ("numpy-int32", numpy.int32(sp)), ("numpy-float32", numpy.float32(sp))])
+            rep = dict(mask=numpy.asarray(mask, dtype=float).tolist(), mask_dtype=mask.dtype.name, subapPos=pos, subapPos_form=form,
+                       subapSpacing=sp, subapSpacing_type=spk)
+            g.update(rep)
+            chk.oracle_cases += 1
+            chk.count("oracle:fill:argform:%s" % form)
+            chk.count("oracle:fill:spacing-type:%s" % spk)
+            chk.case(("oracle", "fill-argform", form, spk, subaps, n, kind, repr(pos)[:200], mask_wire(mask)[:200]))
+            mask_before = numpy.array(mask, copy=True)
+            with numpy.errstate(all="ignore"):
+                ff = numpy.asarray(wfslib.computeFillFactor(mask, arg, spv), dtype=float)
+            want = [M[xy] for xy in sel]
+            if ff.shape != (len(sel),) or any(ulps(a, b) > FILL_ULP for a, b in zip(ff, want)):
+                bad("fill:agree:argform:%s" % ("empty" if not sel else form),
+                    "computeFillFactor(%s %dx%d %s mask, %d coordinates as %s, spacing %s(%d)) = %s; the means of those cells, in the order "
+                    "given, are %s" % (kind, n, n, mask.dtype.name, len(sel), form, spk, sp, ff.tolist()[:8], want[:8]), **rep)
+            if not numpy.array_equal(mask, mask_before):
+                note_broke(chk, "computeFillFactor modifies its mask argument (the model is a pure function)")
+            # findActiveSubaps with the sub-aperture count as a NumPy integer is the same call
+            thr = rng.choice(sorted(set(M.values())))
+            with numpy.errstate(all="ignore"):
+                c0, f0 = wfslib.findActiveSubaps(subaps, mask, thr, returnFill=True)
+                st = rng.choice([numpy.int64, numpy.int32, numpy.uint8])
+                c1, f1 = wfslib.findActiveSubaps(st(subaps), mask, thr, True)
+            if not (numpy.array_equal(c0, c1) and numpy.array_equal(f0, f1)):
+                bad("active:argtype:subaps-%s" % st.__name__, "findActiveSubaps(%s(%d), %s %dx%d mask, %r, True) differs from the call with the "
+                    "Python int %d: %d vs %d sub-apertures" % (st.__name__, subaps, kind, n, n, thr, subaps, len(c1), len(c0)),
+                    subaps=subaps, threshold=thr, **rep)
+    # ---- the documented non-divisible examples (10 px / 3 sub-apertures, 31 px / 7) with geometry recovered by probing
+    for (n, subaps) in ([(10, 3), (31, 7)] if quick else [(10, 3), (31, 7), (17, 4), (23, 5), (40, 7)]):
+        cells = None
+        with Guard(chk, 'active:probe') as g:
+            g.update(subaps=subaps, mask_shape=[n, n])
+            owner = cells_by_probing(wfslib, subaps, n, n)
+            if any(len(cl) != 1 or cl[0][0] is None for cl in owner.values()):
+                p, q = sorted(pq for pq, cl in owner.items() if len(cl) != 1 or cl[0][0] is None)[0]
+                bad("active:partition", "findActiveSubaps(%d, one-hot %dx%d mask at [%d,%d], 2^-40): pixel lies in %d grid cells (must be 1)"
+                    % (subaps, n, n, p, q, len(owner[(p, q)])), pixel=[p, q], subaps=subaps, mask_shape=[n, n])
+                continue
+            cells = {}
+            for pq, cl in sorted(owner.items()):
+                cells.setdefault(cl[0][0], []).append(pq)
+            if len(cells) != subaps * subaps or any(
+                    not (Fr(x * n, subaps) - Fr(1, 2) <= p and p + 1 <= Fr((x + 1) * n, subaps) + Fr(1, 2)
+                         and Fr(y * n, subaps) - Fr(1, 2) <= q and q + 1 <= Fr((y + 1) * n, subaps) + Fr(1, 2))
+                    for (x, y), px in cells.items() for p, q in px):
+                bad("active:cell-geometry", "findActiveSubaps(%d, %dx%d mask): the grid cells are not [x,x+1)·spacing rounded to pixels "
+                    "(%d non-empty cells)" % (subaps, n, n, len(cells)), subaps=subaps, mask_shape=[n, n])
+                cells = None
+                continue
+            chk.count("oracle:partition:ndvd:large")
+        for it in range((12 if quick else 100) if cells else 0):
+            with Guard(chk, 'active') as g:
+                kind, mask = gen_mask(rng, n, n, nondyadic=True)
+                tk, thr = gen_threshold(rng, mask, subaps, [float(m) for m in exact_means(mask, cells).values()])
+                check_active(chk, g, wfslib, subaps, mask, thr, cells, kind, tk + ":ndvd%d/%d" % (n, subaps), sample=False)
+    # ---- make_subaps_2d: more valid positions than 2^8 and 2^16 (a 20x20 … 80x80 Shack-Hartmann has 300 … 5000), distinct values
+    # everywhere so that a position written twice or skipped shows; further payload dtypes and layouts of the slope array
+    big = [(17, "ones"), (20, "circle"), (40, "ring"), (257, "ones")] if quick else \
+        [(16, "ones"), (17, "ones"), (20, "circle"), (40, "ring"), (80, "circle"), (256, "ones"), (257, "ones"), (300, "circle")]
+    for nx, shape_kind in big:
+        with Guard(chk, 'scatter:large') as g:
+            if shape_kind == "ones":
+                mask = numpy.ones((nx, nx))
+            elif shape_kind == "circle":
+                mask = circle(nx / 2.0, nx)
+            else:
+                mask = circle(nx / 2.0, nx) - circle(nx / 6.0, nx)
+            mdt = rng.choice([float, int, bool, numpy.uint8])
+            mask = mask.astype(mdt)
+            nv = int((mask == 1).sum())
+            frames = 1 if nv > 10000 else rng.randint(1, 3)
+            dt = rng.choice(["float64", "int64", "float32"]) if nv < 2 ** 23 else "float64"
+            data = (numpy.arange(frames * 2 * nv).reshape(frames, 2, nv) * 3 + 1).astype(dt)
+            rep = dict(mask_size=nx, mask_kind=shape_kind, mask_dtype=numpy.dtype(mdt).name, valid=nv, frames=frames, dtype=dt,
+                       data="(arange(frames*2*valid).reshape(frames, 2, valid)*3 + 1).astype(dtype)")
+            g.update(rep)
+            chk.oracle_cases += 1
+            chk.count("oracle:scatter:large:%s" % ("gt-2^16" if nv > 65536 else "gt-2^8"))
+            chk.case(("oracle", "scatter-large", nx, shape_kind, numpy.dtype(mdt).name, frames, dt))
+            import warnings
+            with warnings.catch_warnings():
+                warnings.simplefilter("ignore")
+                out = wfslib.make_subaps_2d(data, mask)
+            if getattr(out, "shape", None) != (frames, 2, nx, nx):
+                bad("scatter:shape", "make_subaps_2d output has shape %s for data %s and a %dx%d mask"
+                    % (getattr(out, "shape", None), data.shape, nx, nx), **rep)
+                continue
+            back = out[:, :, mask == 1]
+            if back.shape != data.shape or not numpy.array_equal(back, data):
+                w = numpy.argwhere(back != data)[0].tolist() if back.shape == data.shape else None
+                bad("scatter:roundtrip:large", "make_subaps_2d(data, mask)[:, :, mask == 1] ≠ data for a %dx%d %s mask with %d valid "
+                    "sub-apertures%s" % (nx, nx, shape_kind, nv, "" if w is None else ": data%s = %r comes back as %r"
+                                         % (w, data[tuple(w)].item(), back[tuple(w)].item())), **rep)
+            elif (out[:, :, mask != 1] != 0).any():
+                bad("scatter:off-mask", "make_subaps_2d writes outside the mask (%dx%d %s mask)" % (nx, nx, shape_kind), **rep)
+    DT = {"bool": lambda g_, s: g_.integers(0, 2, s).astype(bool),
+          "int8": lambda g_, s: g_.integers(-128, 128, s).astype(numpy.int8),
+          "uint16": lambda g_, s: g_.integers(0, 65536, s).astype(numpy.uint16),
+          "uint64": lambda g_, s: g_.integers(2 ** 63, 2 ** 64 - 1, s, dtype=numpy.uint64),
+          "float16": lambda g_, s: g_.uniform(1, 2, s).astype(numpy.float16),
+          "complex64": lambda g_, s: (g_.uniform(1, 2, s) + 1j * g_.uniform(1, 2, s)).astype(numpy.complex64),
+          ">f8": lambda g_, s: g_.uniform(1, 2, s).astype(">f8"),
+          ">i4": lambda g_, s: g_.integers(-2 ** 31, 2 ** 31, s).astype(">i4"),
+          "longdouble": lambda g_, s: g_.uniform(1, 2, s).astype(numpy.longdouble) + numpy.longdouble(2) ** -60}
+    for it in range(60 if quick else 600):
+        with Guard(chk, 'scatter') as g:
+            nx = rng.randint(1, 8)
+            mdt = rng.choice([float, numpy.float32, int, bool, numpy.uint8])
+            maskA = numpy.array([[1 if rng.random() < 0.6 else 0 for _ in range(nx)] for _ in range(nx)]).astype(mdt)
+            nv = int((maskA == 1).sum())
+            frames = rng.randint(1, 4)
+            dt = rng.choice(sorted(DT))
+            nprng = numpy.random.default_rng(rng.getrandbits(32))
+            data = DT[dt](nprng, (frames, 2, nv))
+            layout = rng.choice(["C", "fortran", "readonly", "frame-last", "reversed", "broadcast"])
+            if layout == "fortran":
+                data = numpy.asfortranarray(data)
+            elif layout == "readonly":
+                data.setflags(write=False)
+                maskA.setflags(write=False)
+            elif layout == "frame-last":
+                data = numpy.moveaxis(numpy.ascontiguousarray(numpy.moveaxis(data, 0, -1)), -1, 0)
+            elif layout == "reversed":
+                data = numpy.ascontiguousarray(data[:, ::-1, ::-1])[:, ::-1, ::-1]
+            elif layout == "broadcast":                      # every frame the same slopes: a zero-stride, read-only view
+                data = numpy.broadcast_to(data[:1], data.shape)
+            before = numpy.array(data, copy=True)
+            rep = dict(mask=maskA.tolist(), mask_dtype=numpy.dtype(mdt).name, data=[[[str(v) for v in row] for row in fr] for fr in before.tolist()],
+                       dtype=dt, layout=layout)
+            g.update(rep)
+            chk.oracle_cases += 1
+            chk.count("oracle:scatter:data-%s" % dt)
+            chk.count("oracle:scatter:data-layout:%s" % layout)
+            chk.case(("oracle", "scatter5", nx, repr(maskA.tolist()), numpy.dtype(mdt).name, dt, layout, frames, it))
+            import warnings
+            with warnings.catch_warnings():
+                warnings.simplefilter("ignore")
+                out = wfslib.make_subaps_2d(data, maskA)
+                # history: the same shapes again with a sparser mask (a buffer kept from the first call would show through)
+                maskB = maskA.copy()
+                maskB[rng.randrange(nx)] = 0
+                nvB = int((maskB == 1).sum())
+                dataB = before[:, :, :nvB]
+                outB = wfslib.make_subaps_2d(dataB, maskB)
+                outA2 = wfslib.make_subaps_2d(data, maskA)
+            if getattr(out, "shape", None) != (frames, 2, nx, nx):
+                bad("scatter:shape", "make_subaps_2d output has shape %s for data %s and a %dx%d mask" % (getattr(out, "shape", None), data.shape, nx, nx), **rep)
+                continue
+            back = out[:, :, maskA == 1]
+            if back.shape != before.shape or not numpy.array_equal(back, before) or (out[:, :, maskA != 1] != 0).any():
+                bad("scatter:roundtrip:data-%s:%s" % (dt, layout), "make_subaps_2d(data, mask)[:, :, mask == 1] ≠ data (or the map is non-zero off "
+                    "the mask) for a %dx%d %s mask with %d valid sub-apertures and %s data in %s layout (map dtype %s)"
+                    % (nx, nx, numpy.dtype(mdt).name, nv, dt, layout, out.dtype), **rep)
+                continue
+            okB = getattr(outB, "shape", None) == (frames, 2, nx, nx) and numpy.array_equal(outB[:, :, maskB == 1], dataB) \
+                and not (outB[:, :, maskB != 1] != 0).any()
+            okA2 = getattr(outA2, "shape", None) == out.shape and numpy.array_equal(outA2, out) and not numpy.shares_memory(outA2, out)
+            if not (okB and okA2):
+                bad("scatter:history", "make_subaps_2d called three times with maps of the same shape (%dx%d, %d frames, %s data): mask A, a "
+                    "sparser mask B, mask A again — %s" % (nx, nx, frames, dt, "the map of B is wrong (values of A off its mask?)" if not okB
+                                                           else "the second map of A differs from / shares memory with the first"),
+                    maskB=maskB.tolist(), **rep)
+            if not numpy.array_equal(data, before):
+                note_broke(chk, "make_subaps_2d modifies its data argument (the model is a pure function); data dtype %s, layout %s" % (dt, layout))
+
+
 def run(chk):
     quick = chk.tier == "quick"
     chk.rule = ("correspondence: the Lean model run at binary64 vs the real code, compared EXACTLY (bit patterns of coordinates and "
@@ -961,5 +1320,6 @@ def run(chk):
     STATS.clear()
     oracle(chk, quick)
     exhaustive_small(chk, quick)
+    oracle_round5(chk, quick)
     chk.notes.append("observed in this run (largest deviations, in units in the last place): %s"
                      % ", ".join("%s=%g" % kv for kv in sorted(STATS.items())))
